@@ -97,16 +97,19 @@ STMT_TRAITS = r"""
 impl UpdateTrailingTrivia for Stmt {
     open spec fn same_sem_t(&self, r: &Self) -> bool { stmt_sem(*r) == stmt_sem(*self) && ends_with_expression(*r) == ends_with_expression(*self) }
     open spec fn trail_ok(&self, t: FormatTriviaType, r: &Self) -> bool { true }
+    open spec fn not_open(&self) -> bool { other_closed(*self) }
     #[verifier::external_body] fn update_trailing_trivia(&self, trailing_trivia: FormatTriviaType) -> (r: Self) { unimplemented!() }
 }
 impl UpdateTrailingTrivia for LastStmt {
     open spec fn same_sem_t(&self, r: &Self) -> bool { last_sem(*r) == last_sem(*self) }
     open spec fn trail_ok(&self, t: FormatTriviaType, r: &Self) -> bool { true }
+    open spec fn not_open(&self) -> bool { other_closed(*self) }
     #[verifier::external_body] fn update_trailing_trivia(&self, trailing_trivia: FormatTriviaType) -> (r: Self) { unimplemented!() }
 }
 impl GetTrailingTrivia for LastStmt {
+    open spec fn ends_open(&self) -> bool { false }
     #[verifier::external_body] fn trailing_trivia(&self) -> Vec<Token> { unimplemented!() }
-    #[verifier::external_body] fn has_trailing_comments(&self, search: CommentSearch) -> bool { unimplemented!() }
+    #[verifier::external_body] fn has_trailing_comments(&self, search: CommentSearch) -> (r: bool) { unimplemented!() }
     #[verifier::external_body] fn trailing_comments(&self) -> Vec<Token> { unimplemented!() }
 }
 impl UpdateTrivia for LastStmt {
